@@ -585,6 +585,9 @@ class GtkDocAnnotations(OrderedDict):
     def __copy__(self):
         return GtkDocAnnotations(self, position=self.position)
 
+    # OrderedDict.copy() does not go through __copy__() and would drop the position
+    copy = __copy__
+
 
 class GtkDocAnnotatable(object):
     '''
